@@ -309,14 +309,21 @@ impl<'tcx> Cx<'tcx> {
             Rvalue::Discriminant(p) => {
                 let t = self.place_ty(body, p);
                 let mut adt_s = "null".to_string();
+                let mut vmap = vec![];
                 if let ty::Adt(adt, _) = t.kind() {
                     adt_s = esc(&self.path(adt.did()));
+                    if adt.is_enum() {
+                        for (vi, d) in adt.discriminants(self.tcx) {
+                            vmap.push(format!("[{},{}]", esc(&d.val.to_string()), esc(&adt.variant(vi).name.to_string())));
+                        }
+                    }
                 }
                 format!(
-                    "\"rv\":\"discr\",\"place\":{},\"of\":{},\"adt\":{}",
+                    "\"rv\":\"discr\",\"place\":{},\"of\":{},\"adt\":{},\"vmap\":[{}]",
                     self.place(body, p),
                     esc(&self.ty(t)),
-                    adt_s
+                    adt_s,
+                    vmap.join(",")
                 )
             }
             Rvalue::Aggregate(k, fields) => {
